@@ -149,6 +149,8 @@ def tlc(work, module, cfg=None, workers=4, timeout=1800, env=None, heap="4g", ex
     for line in out.splitlines():
         if line.startswith('<<"MISMATCH"'):
             res["mismatches"].append(line)
+        elif line.startswith('<<"WORSE"'):
+            res.setdefault("worse", []).append(line)
         elif line.startswith('"CASE ') or line.startswith("CASE "):
             res["cases"].append(line)
     shutil.rmtree(md, ignore_errors=True)
@@ -209,6 +211,7 @@ def tlc_trace(work, module, tracefile, procs=6, workers=2, timeout=3000, heap="5
                 e.update(env)
             r = tlc(work, module, cfg=cfg, workers=workers, timeout=timeout, env=e, heap=heap, tag="%s-p%d" % (module, i))
             ids += [int(re.findall(r"(\d+)\s*>>", m)[-1]) for m in r["mismatches"]]
+            tlc_trace.worse |= set(int(re.findall(r"(\d+)\s*>>", m)[-1]) for m in r.get("worse", []))
             incomparable = re.search(r"Attempted to (check equality of|compare) ", r["out"])
             if incomparable and not r["violated"]:
                 # The recorded value has a shape that cannot even be compared with the specification's value
@@ -236,6 +239,7 @@ def tlc_trace(work, module, tracefile, procs=6, workers=2, timeout=3000, heap="5
             pass
         return ids, distinct, generated
 
+    tlc_trace.worse = set()      # ids TLC marked as exceeding even the bounds of a known finding (Trace_Cost)
     with ThreadPoolExecutor(max_workers=len(parts)) as ex:
         rs = list(ex.map(one, range(len(parts))))
     bad = sorted(set(i for r in rs for i in r[0]))
